@@ -202,8 +202,12 @@ theorem stepThread_cases (s : St) (t : Nat) :
   · left; rfl
   · rename_i rest hpc
     split
-    · right; exact ⟨_, rest, hpc, rfl, rfl⟩
     · left; rfl
+    · right; exact ⟨_, rest, hpc, rfl, rfl⟩
+  · rename_i rest hpc
+    split
+    · right; exact ⟨_, rest, hpc, rfl, rfl⟩
+    · right; exact ⟨_, rest, hpc, rfl, rfl⟩
   · rename_i rest hpc; right; exact ⟨_, rest, hpc, rfl, rfl⟩
   · rename_i c r rest hpc; right; exact ⟨_, rest, hpc, rfl, rfl⟩
   · rename_i x rest hpc; right; exact ⟨_, rest, hpc, rfl, rfl⟩
@@ -594,6 +598,7 @@ theorem QInv_baseStep {i : SInput} {s : CSt} (h : QInv i s) (w : Nat) (hwn : w <
           have hx : x.owner = w' := (h.goodT w' hwn).2 x (by simp [todoItems, hwpc, stepItems_cons_put])
           simp [stepItems_cons_put, projQ, hx]
         | acq => simp [stepItems]
+        | tryAcq => simp [stepItems]
         | rel => simp [stepItems]
         | call c r => simp [stepItems]
       · unfold todoItems
@@ -604,6 +609,7 @@ theorem QInv_baseStep {i : SInput} {s : CSt} (h : QInv i s) (w : Nat) (hwn : w <
           have : (x.owner == w') = false := by simp [hx]; exact fun hc => hww hc.symm
           simp [projQ, this]
         | acq => rfl
+        | tryAcq => rfl
         | rel => rfl
         | call c r => rfl
     have hb : ({ s with base := stepThread s.base (w + 1), flags := fl, mpc := m } : CSt).base = stepThread s.base (w + 1) := rfl
@@ -630,6 +636,7 @@ theorem QInv_baseStep {i : SInput} {s : CSt} (h : QInv i s) (w : Nat) (hwn : w <
         · have hy : x.owner = w := (h.goodT w hwn).2 x (by simp [todoItems, hwpc, stepItems_cons_put])
           rw [hy]; exact hown
       | acq => exact hqold x hx
+      | tryAcq => exact hqold x hx
       | rel => exact hqold x hx
       | call c r => exact hqold x hx
     · show stepItems (((stepThread s.base (w + 1)).pcs[0]?).getD []) = []
@@ -905,7 +912,8 @@ def BI (i : SInput) (s : CSt) : Prop := ∃ c cu t r, BInv i s c cu t r
 theorem BI.transfer {i : SInput} {s s' : CSt} (h : BI i s) (hm1 : s.mpc ≠ .abort)
     (hsem : s'.base.sem = s.base.sem) (hpcs : s'.base.pcs = s.base.pcs) (hlog : s'.base.log = s.base.log)
     (hms : s'.msecs = s.msecs) (hnsp : s.nsp ≤ s'.nsp) (hm' : s'.mpc ≠ .abort)
-    (hmd : s'.mpc ≠ .done → s.mpc ≠ .done) (hsp : ∀ w, s.mpc = .spawn w → w < s'.nsp ∨ s'.mpc = .spawn w) : BI i s' := by
+    (hmd : s'.mpc ≠ .done → s.mpc ≠ .done) (hsp : ∀ w, s.mpc = .spawn w → w < s'.nsp ∨ s'.mpc = .spawn w)
+    (hv : s'.base.semv = s.base.semv := by rfl) (hl : s'.base.semLog = s.base.semLog := by rfl) : BI i s' := by
   obtain ⟨c, cu, t, r, h⟩ := h
   have hlive : ∀ k, LiveT s.nsp s.mpc k → LiveT s'.nsp s'.mpc k := by
     intro k hk
@@ -916,7 +924,7 @@ theorem BI.transfer {i : SInput} {s s' : CSt} (h : BI i s) (hm1 : s.mpc ≠ .abo
       · exact Or.inr (Or.inl h2)
       · exact Or.inr (Or.inr h2)
   refine ⟨c, cu, t, r, ?_, ?_, ?_, ?_, ?_, ?_⟩
-  · rw [hms]; exact Inv_congr h.inv hsem hpcs hlog
+  · rw [hms]; exact Inv_congr h.inv hsem hpcs hlog hv hl
   · intro k hk; rw [hsem] at hk; exact hlive k (h.holder k hk)
   · intro p hp; exact hlive _ (h.owners_live p hp)
   · intro _; rw [hpcs]; exact h.main_idle hm1
@@ -1139,7 +1147,7 @@ theorem BI_init (i : SInput) : BI i (initC i) := by
   rw [← e]
   refine BI_nextSpawn ?_ (by simp) (by simp) (by simp) 0
   refine ⟨[], [], [], fun t => match t with | 0 => [] | w + 1 => (((progs i)[w]?).map (·.segs)).getD [], ?_, ?_, ?_, ?_, ?_, ?_⟩
-  · refine ⟨by simp [progs, progsFrom_length], ?_, ?_, by simp [flatLog, openLog], ?_, by intro p hp; cases hp⟩
+  · refine ⟨by simp [progs, progsFrom_length], ?_, ?_, by simp [flatLog, openLog], ?_, (by intro p hp; cases hp), ⟨by simp, by simp [readings]⟩⟩
     · intro t ht _
       cases t with
       | zero => simp [segSteps]
@@ -1359,11 +1367,11 @@ theorem pot_step_lt {i : SInput} {s : CSt} (hq : QInv i s) (hb : BI i s) {t : Na
     simp only [pot, mainPot]
     omega
 
-theorem enabled_of_cons {b : St} {t : Nat} {a : Step} {rest : List Step} (hs : b.sem = none) (h : b.pcs[t]? = some (a :: rest)) :
+theorem enabled_of_cons {b : St} {t : Nat} {a : Step} {rest : List Step} (hv : b.semv = 1) (h : b.pcs[t]? = some (a :: rest)) :
     enabled b t = true := by
   unfold enabled
   rw [h]
-  cases a <;> simp [hs]
+  cases a <;> simp [hv]
 
 theorem workerDone_of_unfinished_nil {s : CSt} (hu : unfinished s = []) {w : Nat} (hw : w < s.nsp) : workerDone s w = true := by
   unfold unfinished at hu
@@ -1432,7 +1440,7 @@ theorem exists_enabledC {i : SInput} {s : CSt} (hq : QInv i s) (hb : BI i s) (hn
         | some x =>
           cases x with
           | nil => simp [hp] at hbusy
-          | cons a rest => exact enabled_of_cons hsem hp
+          | cons a rest => exact enabled_of_cons (by simp [hb.inv.cnt.1, hsem]) hp
       · rename_i hd; exact absurd hd hnd
     · -- some started worker still has steps; the semaphore is free, so it can take one
       obtain ⟨w, hw⟩ := List.exists_mem_of_ne_nil _ hu
@@ -1452,7 +1460,7 @@ theorem exists_enabledC {i : SInput} {s : CSt} (hq : QInv i s) (hb : BI i s) (hn
           | cons a rest => exact ⟨a, rest, rfl⟩
       obtain ⟨a, rest, hpc⟩ := hpc
       unfold enabledC
-      simp [hw1, enabled_of_cons hsem hpc]
+      simp [hw1, enabled_of_cons (b := s.base) (by simp [hb.inv.cnt.1, hsem]) hpc]
 
 theorem firstEnabledC_some {i : SInput} {s : CSt} {t : Nat} (h : firstEnabledC i s = some t) : enabledC i s t = true := by
   unfold firstEnabledC at h
@@ -1893,6 +1901,7 @@ theorem todoItems_workerStep {i : SInput} {s : CSt} (h : QInv i s) (w : Nat) (hw
         have hx : x.owner = w' := (h.goodT w' hwn).2 x (by simp [todoItems, hwpc, stepItems_cons_put])
         simp [stepItems_cons_put, projQ, hx]
       | acq => simp [stepItems]
+      | tryAcq => simp [stepItems]
       | rel => simp [stepItems]
       | call c r => simp [stepItems]
     · have : wpc s' w' = wpc s w' := by
@@ -1906,6 +1915,7 @@ theorem todoItems_workerStep {i : SInput} {s : CSt} (h : QInv i s) (w : Nat) (hw
         have : (x.owner == w') = false := by simp [hx]; exact fun hc => hww hc.symm
         simp [projQ, this]
       | acq => rfl
+      | tryAcq => rfl
       | rel => rfl
       | call c r => rfl
 
@@ -2232,14 +2242,18 @@ theorem stepItems_new_clean {b : St} {t : Nat} {P : Item → Prop}
       have hset : (b.pcs.set t rest)[t]?.getD [] = rest := by simp [hlt]
       cases a with
       | acq =>
-        cases hs : b.sem with
-        | none =>
-          have e : (stepThread b t).pcs = b.pcs.set t rest := by simp only [stepThread, hpc, hs]
-          rw [e, hset]; exact ht
-        | some k =>
-          have e : stepThread b t = b := by simp only [stepThread, hpc, hs]
+        by_cases hs : b.semv = 0
+        · have e : stepThread b t = b := by simp only [stepThread, hpc, hs, if_true]
           have : stepItems (Step.acq :: rest) = stepItems rest := rfl
           rw [e, hpc]; simpa [this] using ht
+        · have e : (stepThread b t).pcs = b.pcs.set t rest := by simp only [stepThread, hpc, hs, if_false]
+          rw [e, hset]; exact ht
+      | tryAcq =>
+        have e : (stepThread b t).pcs = b.pcs.set t rest := by
+          by_cases hs : b.semv = 0
+          · simp only [stepThread, hpc, hs, if_true]
+          · simp only [stepThread, hpc, hs, if_false]
+        rw [e, hset]; exact ht
       | rel =>
         have e : (stepThread b t).pcs = b.pcs.set t rest := by simp only [stepThread, hpc]
         rw [e, hset]; exact ht
